@@ -897,6 +897,15 @@ func (e *CEnv) call(ex *CExpr) Value {
 	case "inst":
 		need(1)
 		return e.x.instOf(ev(0))
+	case "utf16units":
+		// utf16units(s): the UTF-16 code units of the runes of string s, as an array; utf16len(s) their number
+		need(1)
+		b := bytesArg(0)
+		return App("utf16units", SArr(SInt, SInt), App("runes", SArr(SInt, SInt), b), IntLit(0), App("runecount", SInt, b))
+	case "utf16len":
+		need(1)
+		b := bytesArg(0)
+		return App("utf16len", SInt, App("runes", SArr(SInt, SInt), b), IntLit(0), App("runecount", SInt, b))
 	case "runecount":
 		need(1)
 		return App("runecount", SInt, bytesArg(0))
@@ -1165,7 +1174,13 @@ func (x *Exec) isEOF(st *State, v Value) *Term {
 func (x *Exec) isFresh(st, old *State, v Value) *Term {
 	switch s := v.(type) {
 	case *SliceVal:
-		return BoolLit(s.Reg.Fresh && !s.Reg.Pool)
+		return objFresh(s.Reg)
+	case *MapVal:
+		mc := x.mapC(st, s.Obj)
+		if mc.ValFresh == nil {
+			return TTrue
+		}
+		return mc.ValFresh
 	case *PtrVal:
 		if s.Obj == nil {
 			return TFalse
@@ -1173,4 +1188,11 @@ func (x *Exec) isFresh(st, old *State, v Value) *Term {
 		return BoolLit(s.Obj.Fresh)
 	}
 	return TFalse
+}
+
+func objFresh(o *Obj) *Term {
+	if o.FreshT != nil {
+		return And(o.FreshT, BoolLit(!o.Pool))
+	}
+	return BoolLit(o.Fresh && !o.Pool)
 }
